@@ -75,7 +75,7 @@ func runC17(c *Ctx, r *Report, tier string) {
 	for _, b := range c.blocks(ds) {
 		for _, in := range b.Instrs {
 			if fa, ok := in.(*ssa.FieldAddr); ok {
-				switch n := fieldObj(fa.X.Type(), fa.Field).Name(); n {
+				switch n := fieldVarName(fieldObj(fa.X.Type(), fa.Field)); n {
 				case "maxLongLen", "hasShort", "hasValueName":
 				default:
 					badF = append(badF, n)
